@@ -118,6 +118,19 @@ add("C10",
     "metric shapes; single_pass+by_group only where every (group, class) stratum is non-empty.",
     engine="hypothesis-stateful")
 
+add("C11",
+    "property-based testing: Hypothesis @given over (source, sampling configuration, RNG seed) "
+    "with exact per-sample invariants, a Hypothesis state machine for sample-of-a-sample "
+    "histories, and a bounded-error statistical test of unbiasedness",
+    "Exploration: every generated sample is checked for flags, class membership, sortedness, "
+    "metrics = direct counting, at-least-one scored sample, total count, strata, proportion "
+    "sizes / no replacement and the documented dynamic choice; unbiasedness (mean stratum sizes, "
+    "mean multiplicity 1 of every score, every score reachable) is decided by Bernstein bounds "
+    "with a stated false-alarm budget (<1e-8 per run) and a confirmation run.",
+    "np.random global state is seeded per case; statistical clause needs both hard classes >= 30 "
+    "so that the at-least-one correction cannot bias the means.",
+    engine="hypothesis-stateful")
+
 NOT_YET = {}
 
 
